@@ -438,7 +438,8 @@ def nt_control(prog, out, monline=""):
 PROPS["C10"] = dict(
     title="Labels are set once and every jump target exists",
     projection="labels",
-    monitors=[("C10u", "all"), ("C10r", "accepted")],
+    extra_files=["C10b"],
+    monitors=[("C10u", "all"), ("C10r", "all")],
     domain="all",
     rule="corpus + generated programs with nested and sibling if / else-if / loop constructs; uniqueness is judged on every "
          "output, resolution on accepted ones; non-trivial = at least four labels set in the implementation's output; "
@@ -446,17 +447,16 @@ PROPS["C10"] = dict(
     nontrivial=nt_control,
     level_text="Coq theorems over the model for ALL programs: no label is set twice in a function's stack (run_labels_unique) "
                "and every label named by a jump or conditional is registered, i.e. was produced by the label generator "
-               "(run_targets_registered). PARTIAL for the second half of the property: that every named target is also SET in "
-               "accepted programs is not yet a theorem; it is decided on the implementation's outputs by the exact monitor "
-               "chk_C10_resolve (and by C05's execution monitor) and tied by the correspondence on label layout.",
-    assumptions=["resolution half: monitor + correspondence only (theorem covers registration, not setting)"],
+               "(run_targets_registered). and every named target is SET in that stack (run_targets_resolved), "
+               "hence set exactly once; both exact monitors judge the implementation's outputs.",
+    assumptions=["the analysis of the program terminates without panic (C13)"],
 )
 
 PROPS["C11"] = dict(
     title="Each accepted function ends in one return of the right form",
     projection="returns",
-    monitors=[("C11", "accepted")],
-    domain="accepted",
+    monitors=[("C11", "all")],
+    domain="accepted_wf",
     rule="accepted programs with returns nested at any depth in if / else-if / else / loop bodies; non-trivial = the "
          "implementation's output contains a JumpFunctionReturn; distinct = distinct program texts",
     nontrivial=lambda prog, out, monline="": out.startswith("(out (errors) ") and "(JumpFunctionReturn " in out,
@@ -492,6 +492,138 @@ PROPS["C18"] = dict(
                "are positional in the model and checked with Rc::ptr_eq by the harness.",
     assumptions=["value-table clause and parent links: correspondence / harness check only"],
 )
+
+
+def known_C01(prog, impl, monline, mname):
+    """C01 intended fails while the quirk version holds: inside K_F2 u K_F8 (recorded findings)."""
+    from verif import mon_field
+    if mname != "C01":
+        return None
+    if mon_field(monline, "C01q") != "1":
+        return None
+    iv = mon_field(monline, "iv")
+    if iv == "FunctionParameterTypeWrong":
+        return "F2: a call with fewer arguments than declared parameters is accepted (class K_F2; witness corpus/F2_too_few_arguments.sexp)"
+    if iv == "ConstantNotFound":
+        return "F8: unchecked constant reference in a constant's value expression (head position / after a literal) is accepted (class K_F8; witness corpus/F8_const_reference.sexp)"
+    return None
+
+
+PENDING = {}
+PENDING["C01"] = dict(
+    title="An accepted program is well-formed (no ill-formed program passes)",
+    projection="verdict",
+    monitors=[("C01q", "all"), ("C01", "all")],
+    known_class=known_C01,
+    domain="all",
+    rule="corpus + generated programs; the single-fault stream breaks one rule of the rule set at one applicable site of a "
+         "well-formed program (19 rule classes); the free stream is mostly ill-formed; non-trivial = a rejected-by-the-spec "
+         "program (the implication has content exactly there) ; distinct = distinct program texts",
+    nontrivial=lambda prog, out, monline="": " wf:0" in monline,
+    level_text="Coq theorem over the model: for every program on which the analysis terminates, an empty error list implies that "
+               "the independent rule checker (Spec/FirstViolation, intended rule set) admits the program, or the program lies in "
+               "the decidable classes K_F2 / K_F8 of the two recorded findings (with refutation witnesses proved by computation); "
+               "the verified monitor chk_C01_quirk judges the implementation's own verdict on every generated program.",
+    assumptions=["rule set = DESIGN.md §3.1 as formalised in coq/Spec/FirstViolation.v"],
+)
+PENDING["C02"] = dict(
+    title="A well-formed program is accepted (no spurious errors)",
+    projection="verdict",
+    monitors=[("C02", "all")],
+    domain="all",
+    rule="corpus + generated programs; the wf stream is type-directed and is independently confirmed well-formed by the Coq "
+         "rule checker wf_b (fraction reported in monitor.wf_confirmed); non-trivial = a program the rule checker admits with "
+         "at least two blocks; distinct = distinct program texts",
+    nontrivial=lambda prog, out, monline="": " wf:1" in monline and out.count("(block ") >= 2,
+    assumptions=["rule set = DESIGN.md §3.1 as formalised in coq/Spec/FirstViolation.v"],
+)
+PENDING["C14"] = dict(
+    title="The first reported error is the first violated rule, with kind and name",
+    projection="first_error",
+    monitors=[("C14", "all")],
+    domain="all",
+    rule="corpus + generated programs; single-fault stream: one fault per rule class x site; non-trivial = a rejected program "
+         "(first error compared with the independent first-violation checker: kind, location, and identifier where the kind "
+         "names one); distinct = distinct program texts",
+    nontrivial=lambda prog, out, monline="": not out.startswith("(out (errors) ") and not out.startswith("(panic"),
+    assumptions=["diagnostics order and identifier-naming kinds = DESIGN.md §3.2 as formalised in coq/Spec/FirstViolation.v"],
+)
+
+
+def known_C08(prog, impl, monline, mname):
+    from verif import mon_field
+    if mname == "C08i" and mon_field(monline, "C08q") == "1":
+        return "F7: a call / struct-field read used as an operand names register n+1 while the instruction wrote n (class K_F7; witness corpus/F7_call_operand.sexp)"
+    return None
+
+
+PENDING["C08"] = dict(
+    title="Every register that is read has been written earlier in the same function",
+    projection="stacks",
+    monitors=[("C08q", "accepted_wf"), ("C08i", "accepted_wf")],
+    known_class=known_C08,
+    domain="accepted_wf",
+    rule="accepted, well-formed programs; def-use scan of every operand, logic input and conditional subject of the "
+         "implementation's root stacks; non-trivial = at least six register reads; distinct = distinct program texts",
+    nontrivial=lambda prog, out, monline="": out.count("(reg ") >= 6,
+    assumptions=["F7 is a recorded finding: the quirk monitor accepts exactly the call / field-read shape"],
+)
+
+
+def known_C05(prog, impl, monline, mname):
+    from verif import mon_field
+    if mname == "C05i" and mon_field(monline, "C05q") == "1":
+        return "F5: an if nested in an if/else/else-if body reuses the outermost end label, statements after it are skipped (class K_F5; witness corpus/F5_nested_if.sexp)"
+    return None
+
+
+PENDING["C05"] = dict(
+    title="The instruction stack preserves the program's control flow",
+    projection="stacks",
+    monitors=[("C05q", "accepted_wf"), ("C05i", "accepted_wf"), ("C10r", "accepted_wf")],
+    known_class=known_C05,
+    domain="accepted_wf",
+    rule="accepted, well-formed programs; flat execution of the implementation's root stack against structured execution of "
+         "the source for ALL 2^k outcome strings (k = 6 quick, 10 thorough) with a step budget; non-trivial = at least two "
+         "conditional instructions and one loop or else part; distinct = distinct program texts",
+    nontrivial=lambda prog, out, monline="": out.count("(IfCondition") >= 2 and ("loop_begin" in out or "if_else" in out),
+    assumptions=["F5 is a recorded finding: the quirk semantics describes it exactly; the monitor is bounded in outcome-string length"],
+)
+
+
+def extra_C13(prog, impl, monline):
+    from verif import mon_field
+    if impl.startswith("(panic") and mon_field(monline, "dom13") == "1":
+        return "C13: the implementation panicked on a program of the domain"
+    if impl.startswith("(missing"):
+        return "C13: the implementation produced no output for this program (crash or timeout)"
+    return None
+
+
+PENDING["C13"] = dict(
+    title="Analysis is total: it terminates without panicking on every AST",
+    projection="panic",
+    monitors=[],
+    extra_check=extra_C13,
+    domain="all",
+    rule="corpus + generated programs incl. the free stream (arrays, empty names, empty bodies, surplus / missing "
+         "arguments, recursion) run under catch_unwind with a 1 GiB stack; non-trivial = a program of the domain "
+         "(in_domain_b) that is rejected or has nesting depth >= 3; distinct = distinct program texts",
+    nontrivial=lambda prog, out, monline="": " dom13:1" in monline and (not out.startswith("(out (errors) ") or out.count("(block ") >= 4),
+    level_text="Coq theorem over the model: for every program of the domain (kinded statements, loop-flavoured if-bodies only "
+               "inside loops, numeric suffixes < 2^32, function size < 2^32) run returns ROk: the fuel of every loop suffices "
+               "(pigeonhole for the two name probes, a potential argument for the priority folding), no modelled panic is "
+               "reachable. PARTIAL by nature: RefCell borrow panics, native stack exhaustion and allocation failure are runtime "
+               "behaviours the functional model cannot exhibit; they are covered by running the implementation under "
+               "catch_unwind on the generated programs only.",
+    assumptions=["runtime panics outside the functional model (borrow state, native stack, allocation) are explored, not proved"],
+)
+
+
+def activate_pending():
+    for k, v in PENDING.items():
+        if k not in PROPS and os.path.exists(os.path.join(ROOT, "coq", "Properties", k + ".v")):
+            PROPS[k] = v
 
 
 # ------------------------------------------------------------------------------------------------
@@ -554,6 +686,10 @@ def judge(prop, prog, impl, model, monline):
     spec = PROPS[prop]
     agree = True
     where = ""
+    if impl.startswith("(panic") and prop != "C13":
+        # a panicking run is outside the domain of every property but C13 ("on which the analysis
+        # terminates"); C13 is the property that judges it
+        return {"agree": True, "where": "", "monitor": None}
     if impl != model:
         try:
             ti, tm = parse(impl), parse(model)
@@ -720,3 +856,6 @@ def search(prop, seed):
         i, clause = st["alarms"][0]
         return run.programs[i], clause
     return None
+
+
+activate_pending()
